@@ -27,6 +27,7 @@ import numpy as np
 from ..lib import core
 from ..lib.core import Failure, Disagreement
 from ..extract import upgradeshape as _shape
+from ..extract import fileconst as _fileconst
 
 PROP = "C18"
 LEAN_MODULE = "NixModel.Props.C18"
@@ -42,6 +43,7 @@ THEOREMS = [
     "Nix.C18.C18_resumable_steps",
     "Nix.C18.C18_idempotent",
     "Nix.C18.C18_writable",
+    "Nix.C18.C18_shape_open",
     "Nix.C18.C18_safe_to_repeat",
     "Nix.C18.C18_stale_list_resumes",
     "Nix.C18.C18_content_partial",
@@ -84,7 +86,8 @@ ASSUMPTIONS = [
 ]
 TRUSTED_EXTRA = ["harness/props/c18.py: h5py crafting of old-format files, `abstract()` (HDF5 -> model file schema), "
                  "the h5py namespace proxy that raises/kills at the k-th mode-'a' open inside nixio.cmd.upgrade",
-                 "harness/extract/upgradeshape.py (ast translator of the upgrade / reader shape)"]
+                 "harness/extract/upgradeshape.py (ast translator of the upgrade / reader shape)",
+                 "harness/extract/fileconst.py (C11's translator of nixio/file.py, re-run by this check)"]
 READY = True
 MANIFEST = {
     "level_text": "Kernel-checked theorems over a Lean model of nixio/cmd/upgrade.py (collect_tasks flattened to one "
@@ -97,7 +100,8 @@ MANIFEST = {
                   "made fresh ids/timestamps; at every interruption point the file reads as before and is still old "
                   "(C18_interrupted_reads_same); the result has nothing left to collect, a second upgrade and a stale task "
                   "list are the identity, a task list collected before an interrupted run and processed on what it left "
-                  "completes the upgrade with the same result (C18_stale_list_resumes), the file opens for writing; for every file (no hypothesis on name clashes), "
+                  "completes the upgrade with the same result (C18_stale_list_resumes), the file opens for writing (openRW proved "
+                  "equal to can_write / _check_header over the constants regenerated from nixio/file.py, C18_shape_open); for every file (no hypothesis on name clashes), "
                   "every step list and failing steps included, every property keeps dtype, values, unit and "
                   "definition and no per-value extra is lost (a compound property is afterwards untouched or "
                   "converted with every extra retrievable by a reader who knows the original names; "
@@ -138,7 +142,10 @@ def extract(repo):
     """nixio/cmd/upgrade.py, nixio/dimensions.py, nixio/property.py -> NixModel/Generated/UpgradeShape.lean (shape of
     collect_tasks, process_tasks, the tests and the rules of one conversion, create_property, the range dimension
     readers, the version switch of the property value readers)"""
-    return _shape.extract(repo)
+    out = dict(_shape.extract(repo))
+    # nixio/file.py -> Generated/FormatConst.lean (translator of property C11; C18_shape_open is stated over it)
+    out.update({k: v for k, v in _fileconst.extract(repo).items() if k.endswith("/FormatConst.lean")})
+    return out
 
 
 VSTR = h5py.string_dtype()
